@@ -91,3 +91,57 @@ def candidate_values(ctx, spec, rng, *, n_wit=3, max_pert=120, zoo_n=4, perturb=
         z.pop("big_str", None)
         for name in rng.sample(sorted(z), zoo_n):
             yield z[name], ("zoo", name)
+
+
+def generate_all(ctx, schema, rng, *, real_runs=2, max_sched=None):
+    """Generate from `schema` under adversarial schedules and through the real d42.fake.
+
+    Yields (schedule_name, value, exception).  Draw sites are recorded in ctx.extra['draw_sites'].
+    """
+    from . import advrandom
+    import d42
+    from d42.generation import Random
+    gen = advrandom.make_generator()
+    probe = advrandom.Adversary("seeded", seed=rng.getrandbits(32))
+    with advrandom.installed(probe):
+        try:
+            w = schema.__accept__(gen)
+            first = ("seeded_probe", w, None)
+        except Exception as e:  # noqa
+            first = ("seeded_probe", None, e)
+    _note_sites(ctx, probe)
+    ctx.count("schedules_run")
+    yield first
+    scheds = advrandom.schedules(ctx.tier, probe.n, rng)
+    if max_sched is not None and len(scheds) > max_sched:
+        scheds = scheds[:5] + rng.sample(scheds[5:], max_sched - 5)
+    if probe.n == 0:
+        scheds = scheds[:1]
+    for name, kw in scheds:
+        adv = advrandom.Adversary(**kw)
+        with advrandom.installed(adv):
+            try:
+                w = schema.__accept__(gen)
+                out = (name, w, None)
+            except Exception as e:  # noqa
+                out = (name, None, e)
+        _note_sites(ctx, adv)
+        ctx.count("schedules_run")
+        ctx.count("draws", adv.n)
+        yield out
+    for i in range(real_runs):
+        Random().set_seed(rng.getrandbits(32))
+        ctx.count("real_fake_runs")
+        try:
+            yield (f"real{i}", d42.fake(schema), None)
+        except Exception as e:  # noqa
+            yield (f"real{i}", None, e)
+
+
+def _note_sites(ctx, adv):
+    ds = ctx.extra.setdefault("draw_sites", {})
+    for site, modes in adv.sites.items():
+        cur = ds.setdefault(site, [])
+        for m in modes:
+            if m not in cur:
+                cur.append(m)
